@@ -113,6 +113,35 @@ theorem incr_live (w : Nat) (t : Bits.TState) (sl : Bits.Slot) (h : t.view = som
   · simp only [Bits.tstep, tget_snd, h, Option.map_some, Option.getD_some]
   · rw [view_incrBits, h]; rfl
 
+/-! ## several keys; bit-field values copied between keys by the value commands -/
+
+/-- **Keys are independent arrays, also after a bit-field VALUE was copied from one key to another
+with the value commands** (`set(dst, await get(src))`, `set_many`, a transaction's buffer and
+commit — all of them store `copy(value)`): for every history over any number of keys of
+`get_bits` / `incr_bits` / `expire` / `delete` / `exists` commands, passages of time and such copies
+(with or without a ttl, also onto the key itself, also from or onto a run-out unpurged entry), the
+answers are those of one eagerly expiring ideal counter array PER KEY, where a copy gives `dst`
+the counter values `src` has at that moment — and nothing else ever connects two keys. -/
+theorem mbits_refine_counters (w now : Nat) (ops : List Bits.MOp) :
+    Bits.mrun w (fun _ => ⟨now, none⟩) ops = Counters.mrun w (fun _ => Counters.fresh now) ops :=
+  mrun_eq ops (mrepr_init w now)
+
+/-- a command on one key changes no other key — whatever was copied where before -/
+theorem other_keys_untouched (w : Nat) (m : Bits.MState) (k k' : Nat) (op : Bits.TOp) (h : k' ≠ k) :
+    (Bits.mstep w m (.on k op)).1 k' = m k' := by
+  simp [Bits.mstep, Bits.MState.set, h]
+
+/-- right after a copy `dst` reads what `src` reads, field by field (when `src` held an array) -/
+theorem copy_copies (w : Nat) (m : Bits.MState) (src dst ttl : Nat) (sl : Bits.Slot) (h : (m src).view = some sl)
+    (idxs : List Nat) :
+    (Bits.tstep w ((Bits.mstep w m (.copy src dst ttl)).1 dst) (.getBits idxs)).2 = getBits sl.a idxs w := by
+  have e : (Bits.mstep w m (.copy src dst ttl)).1 dst = Bits.tset ((Bits.MState.set m src (Bits.tget (m src)).1) dst) sl.a ttl := by
+    simp only [Bits.mstep, tget_snd, h]
+    exact MState.set_same _ _ _
+  rw [e]
+  simp only [Bits.tstep, tget_snd, tset_view']
+  rfl
+
 /-! ## index derivation -/
 
 /-- **`get_indexes` returns exactly `k` distinct indexes, all below `m`** — for every hash
@@ -321,6 +350,13 @@ example :
     tallSet (frun (fstep t (.add [2, 6] true)) post) [0] = false ∧
     aliveThrough (fstep t (.add [2, 6] true)) (post ++ [.adv 1]) = false ∧
     tallSet (frun (fstep t (.add [2, 6] true)) (post ++ [.adv 1])) [2, 6] = false := by decide
+
+-- two keys: key 0 is copied to key 1 (with a ttl of 8), then each is incremented; nothing leaks, the copy runs out alone
+example : Bits.mrun 4 (fun _ => ⟨0, none⟩)
+      [.on 0 (.incrBits [1, 3] 5), .copy 0 1 8, .on 1 (.getBits [0, 1, 2, 3]), .on 0 (.incrBits [7] 2), .on 1 (.getBits [7]),
+       .on 0 (.incrBits [1] 100), .on 1 (.getBits [1]), .on 1 (.incrBits [3] (-5)), .on 0 (.getBits [3]), .copy 2 0 0,
+       .adv 8, .on 1 (.getBits [1]), .on 0 (.getBits [1, 3, 7])]
+    = [[5, 5], [1], [0, 5, 0, 5], [2], [0], [15], [5], [0], [5], [0], [], [0], [15, 5, 2]] := by decide
 
 /-- a toy hash with collisions: half the byte sum -/
 def toyHash : Nat → List UInt8 → Nat := fun _ bs => (bs.foldl (fun s b => s + b.toNat) 0) / 2
